@@ -46,6 +46,9 @@ type parkedCall struct {
 func (p *parkedCall) String() string { return fmt.Sprintf("%s#%d:%s(%s)", p.label, p.seq, p.method, p.desc) }
 
 type World struct {
+	// Epoch counts node incarnations: clients created before the last Kill stay dead for ever
+	// (a crashed process makes no more calls, even if one of its goroutines ignores its context).
+	Epoch  int
 	mu     sync.Mutex
 	parked []*parkedCall
 	seq    map[string]int
@@ -68,12 +71,12 @@ func (w *World) BeginSetup() { w.mu.Lock(); w.setup = true; w.mu.Unlock() }
 // Rule: a call whose context is already cancelled never parks and never
 // consumes a sequence number; a parked call returns at once when its context
 // is cancelled and is dropped from the list.
-func (w *World) park(ctx context.Context, label, method, desc string) int {
+func (w *World) park(ctx context.Context, label, method, desc string, epoch int) int {
 	if ctx == nil {
 		ctx = context.Background()
 	}
 	w.mu.Lock()
-	if w.dead {
+	if w.dead || epoch != w.Epoch {
 		w.mu.Unlock()
 		return replyDead
 	}
@@ -186,6 +189,7 @@ func (w *World) Kill() {
 func (w *World) Revive() {
 	w.mu.Lock()
 	w.dead = false
+	w.Epoch++
 	w.seq = map[string]int{}
 	w.mu.Unlock()
 }
@@ -207,6 +211,7 @@ type FakeClient struct {
 	W     *World
 	C     *Chain
 	Label string
+	Epoch int
 	// StaleNext: answer from the chain as it was one chain-op earlier.
 }
 
@@ -242,7 +247,7 @@ func (c *FakeClient) obs(method, desc string, mode int, result any) {
 
 func (c *FakeClient) HeaderByNumber(ctx context.Context, number *big.Int) (*types.Header, error) {
 	desc := numDesc(number)
-	mode := c.W.park(ctx, c.Label, "HeaderByNumber", desc)
+	mode := c.W.park(ctx, c.Label, "HeaderByNumber", desc, c.Epoch)
 	switch mode {
 	case replyDead:
 		if ctx != nil && ctx.Err() != nil {
@@ -283,7 +288,7 @@ func (c *FakeClient) BlockNumber(ctx context.Context) (uint64, error) {
 }
 
 func (c *FakeClient) ChainID(ctx context.Context) (*big.Int, error) {
-	mode := c.W.park(ctx, c.Label, "ChainID", "")
+	mode := c.W.park(ctx, c.Label, "ChainID", "", c.Epoch)
 	switch mode {
 	case replyDead:
 		if ctx != nil && ctx.Err() != nil {
@@ -298,7 +303,7 @@ func (c *FakeClient) ChainID(ctx context.Context) (*big.Int, error) {
 
 func (c *FakeClient) FilterLogs(ctx context.Context, q ethereum.FilterQuery) ([]types.Log, error) {
 	desc := fmt.Sprintf("%s..%s", numDesc(q.FromBlock), numDesc(q.ToBlock))
-	mode := c.W.park(ctx, c.Label, "FilterLogs", desc)
+	mode := c.W.park(ctx, c.Label, "FilterLogs", desc, c.Epoch)
 	switch mode {
 	case replyDead:
 		if ctx != nil && ctx.Err() != nil {
@@ -328,7 +333,7 @@ func (c *FakeClient) CallContract(ctx context.Context, call ethereum.CallMsg, bl
 		to = *call.To
 	}
 	desc := fmt.Sprintf("%s %x @%s", to.Hex()[:8], call.Data[:min(4, len(call.Data))], numDesc(blockNumber))
-	mode := c.W.park(ctx, c.Label, "CallContract", desc)
+	mode := c.W.park(ctx, c.Label, "CallContract", desc, c.Epoch)
 	switch mode {
 	case replyDead:
 		if ctx != nil && ctx.Err() != nil {
@@ -365,7 +370,7 @@ func (c *FakeClient) Call(result any, method string, args ...any) error {
 			desc = method + " " + h.Hex()[:10]
 		}
 	}
-	mode := c.W.park(context.Background(), c.Label, "Call", desc)
+	mode := c.W.park(context.Background(), c.Label, "Call", desc, c.Epoch)
 	switch mode {
 	case replyDead:
 		return errWorldDead
